@@ -297,6 +297,39 @@ def unit_compare(unit):
                     except Exception:
                         agg.outcomes["cmp-length-mismatch-raises"] += 1
                     agg.compared += 1
+    if kind == "bool":
+        # logical NOT, on every bool vector of length 0..maxlen+1; the result must be usable as a mask again
+        for n in range(0, maxlen + 2):
+            for xs in itertools.product([True, False], repeat=n):
+                xs = list(xs)
+                want = [not x for x in xs]
+                agg.evals += 1; agg.transitions += 2; agg.states += 1
+                case = {"op": "invert", "operand": xs}
+                try:
+                    m = Vector(xs, dtype=bool) if not xs else Vector(xs)
+                    res = ~m
+                    check_bool_result(agg, "compare.invert", res, want, case)
+                    data = Vector(list(range(n)), dtype=int) if not xs else Vector(list(range(n)))
+                    sel = data[res]
+                    if list(sel._underlying) != [i for i, w in enumerate(want) if w]:
+                        agg.violation(V("compare.invert", "inverted-mask-selects-wrong-rows", case, [i for i, w in enumerate(want) if w], list(sel._underlying)))
+                    else:
+                        agg.outcomes["invert-ok"] += 1
+                except Exception as e:
+                    agg.violation(V("compare.invert", "raises-" + type(e).__name__ + ("-zero-length" if not xs else ""), case, want, repr(e)[:80]))
+        # masks derived from comparisons of EMPTY vectors (a selection that matched nothing)
+        for opn, op in CMP.items():
+            agg.evals += 1; agg.transitions += 3
+            case = {"op": opn, "operand": [], "form": "empty-vs-scalar"}
+            try:
+                e = Vector([5, 6, 7])[Vector([False, False, False])]
+                m = op(e, 2)
+                check_bool_result(agg, f"compare.{opn}.empty", m, [], case)
+                check_bool_result(agg, "compare.invert", ~m, [], dict(case, then="invert"))
+                if len(e[~m]) != 0 or len(e[m]) != 0:
+                    agg.violation(V("compare.invert", "empty-mask-selects-rows", case))
+            except Exception as ex:
+                agg.violation(V(f"compare.{opn}.empty", "raises-" + type(ex).__name__ + "-zero-length", case, [], repr(ex)[:80]))
     agg.sample({"compare": kind, "alphabet": alpha, "max_len": maxlen})
     return agg
 
@@ -524,6 +557,45 @@ def unit_table(unit):
         res = None
     if table_obs(t) != before and not same_table(table_obs(t), model):
         agg.violation(V("table.getitem", "operand-modified", d, before, table_obs(t)))
+    # ---- histories: rename a column through a live view (and swap two names), then select by name
+    if nrows and len(names) >= 1:
+        scenarios = [("rename-first", {0: "renamed"})]
+        if len(names) >= 2 and names[0] != names[1]:
+            scenarios.append(("swap-names", {0: names[1], 1: names[0]}))
+        for lab, newnames in scenarios:
+            for warm in (False, True):
+                t2 = build()
+                if warm:
+                    try:
+                        getattr(t2, "a", None); t2[("a",)] if "a" in names else None
+                    except Exception:
+                        pass
+                cols2 = list(t2.cols())
+                for ci, nn in newnames.items():
+                    cols2[ci].name = nn
+                model2 = [(newnames.get(i, nm), vals) for i, (nm, vals) in enumerate(model)]
+                for ck in colkeys:
+                    if len(ck) > 2:
+                        continue
+                    ck2 = tuple("renamed" if x == "zz" and lab == "rename-first" else x for x in ck)
+                    want = model_select_cols(model2, ck2)
+                    agg.evals += 1; agg.transitions += 1; agg.compared += 1
+                    case = dict(d, history=[f"{lab} through live column views", "select"], colkey=list(ck2), warm_map=warm)
+                    try:
+                        res = t2[ck2] if len(ck2) > 1 else t2[ck2[0],]
+                    except Exception as e:
+                        res = e
+                    if want is KeyError:
+                        if not isinstance(res, Exception):
+                            agg.violation(V("table.getitem.cols.after-rename", "missing-column-accepted", case, "error", table_obs(res)))
+                        else:
+                            agg.outcomes["after-rename-ok"] += 1
+                    elif isinstance(res, Exception):
+                        agg.violation(V("table.getitem.cols.after-rename", "raises-" + type(res).__name__, case, want))
+                    elif not same_table(table_obs(res), want):
+                        agg.violation(V("table.getitem.cols.after-rename", "wrong-columns", case, want, table_obs(res)))
+                    else:
+                        agg.outcomes["after-rename-ok"] += 1
     agg.sample({"table": d, "row_keys": len(rowkeys), "col_keys": len(colkeys)})
     return agg
 
